@@ -48,6 +48,23 @@ Lemma frames_set_vars s x : frames s (set_vars s x). Proof. fsame. Qed.
 Lemma frames_set_top_in s x : frames s (set_top_in s x). Proof. fsame. Qed.
 Lemma frames_emit s x : frames s (emit s x). Proof. fsame. Qed.
 Lemma frames_push s v : frames s (push v s). Proof. fsame. Qed.
+Lemma frames_set_heap s x : frames s (set_heap s x). Proof. fsame. Qed.
+Lemma frames_set_cur s x : frames s (set_cur s x). Proof. fsame. Qed.
+
+Lemma frames_assign_var n v s : frames s (assign_var n v s).
+Proof.
+  unfold assign_var. destruct (cur s) as [|id r]; [fsame|].
+  destruct (nth_error (heap s) id) as [fr|]; [|fsame]. destruct (cell_of n fr); fsame.
+Qed.
+
+Lemma frames_enter_def names env s : frames s (enter_def names env s).
+Proof. unfold enter_def. destruct names; fsame. Qed.
+Lemma ctxv_enter_def names env s : ctxv (enter_def names env s) = ctxv s. Proof. destruct names; reflexivity. Qed.
+Lemma inner_enter_def names env s : inner (enter_def names env s) = inner s. Proof. destruct names; reflexivity. Qed.
+Lemma fstack_enter_def names env s : fstack (enter_def names env s) = fstack s. Proof. destruct names; reflexivity. Qed.
+Lemma sdepth_enter_def names env s : sdepth (enter_def names env s) = sdepth s. Proof. destruct names; reflexivity. Qed.
+Lemma stk_enter_def names env s : stk (enter_def names env s) = stk s. Proof. destruct names; reflexivity. Qed.
+Lemma this_enter_def names env s : this (enter_def names env s) = this s. Proof. destruct names; reflexivity. Qed.
 
 Lemma frames_get_top s : frames s (fst (get_top s)).
 Proof. unfold get_top. destruct (fst (top_in s)); simpl; [apply frames_refl|fsame]. Qed.
@@ -72,6 +89,27 @@ Proof.
   - destruct (pop1 s) as [sa x] eqn:E1. destruct (popn k sa) as [sb xs] eqn:E2.
     inversion H; subst. eapply frames_trans; [eapply pop1_frames; eauto|eapply IH; eauto].
 Qed.
+
+Lemma frames_bind_params l : forall s, frames s (bind_params l s).
+Proof.
+  unfold bind_params. induction l as [|kv l IH]; intro s; simpl; [apply frames_refl|].
+  eapply frames_trans; [apply frames_assign_var|apply IH].
+Qed.
+
+Lemma this_assign_var n v s : this (assign_var n v s) = this s.
+Proof.
+  unfold assign_var. destruct (cur s) as [|id r]; [reflexivity|].
+  destruct (nth_error (heap s) id) as [fr|]; [|reflexivity]. destruct (cell_of n fr); reflexivity.
+Qed.
+Lemma stk_assign_var n v s : stk (assign_var n v s) = stk s.
+Proof.
+  unfold assign_var. destruct (cur s) as [|id r]; [reflexivity|].
+  destruct (nth_error (heap s) id) as [fr|]; [|reflexivity]. destruct (cell_of n fr); reflexivity.
+Qed.
+Lemma this_bind_params l : forall s, this (bind_params l s) = this s.
+Proof. unfold bind_params. induction l as [|kv l IH]; intro s; simpl; [reflexivity|]. rewrite IH. apply this_assign_var. Qed.
+Lemma stk_bind_params l : forall s, stk (bind_params l s) = stk s.
+Proof. unfold bind_params. induction l as [|kv l IH]; intro s; simpl; [reflexivity|]. rewrite IH. apply stk_assign_var. Qed.
 
 Lemma get_top_frames s s1 v : get_top s = (s1, v) -> frames s s1.
 Proof. intro H. pose proof (frames_get_top s) as F. rewrite H in F. exact F. Qed.
@@ -323,11 +361,14 @@ Section RStep.
 
   Lemma keeps2_r_lambda self c popped s : keeps2 (r_lambda rec self c popped s) s.
   Proof.
-    unfold r_lambda, with_stack, with_locals, with_this, with_function, with_context, with_scope, with_registered, bracket. simpl.
+    unfold r_lambda, with_stack, with_env, with_this, with_function, with_context, with_scope, with_registered, bracket. simpl.
     match goal with |- context [rec (c_body c) ?S0] => destruct (rec (c_body c) S0) as [[g s1]| |] end; simpl; try exact I.
     destruct g; simpl; try exact I.
-    - destruct (pop1 s1) as [s2 r]. simpl. repeat split; simpl; try reflexivity. apply scopes_like_refl.
-    - repeat split; simpl; try reflexivity. apply scopes_like_refl.
+    - destruct (pop1 s1) as [s2 r]. simpl.
+      repeat split; simpl; rewrite ?ctxv_enter_def, ?fstack_enter_def, ?sdepth_enter_def, ?inner_enter_def; simpl; try reflexivity.
+      apply scopes_like_refl.
+    - repeat split; simpl; rewrite ?ctxv_enter_def, ?fstack_enter_def, ?sdepth_enter_def, ?inner_enter_def; simpl; try reflexivity.
+      apply scopes_like_refl.
   Qed.
 
   Lemma pop_star_frames s s1 l : pop_star s = Some (s1, l) -> frames s s1.
@@ -354,12 +395,18 @@ Section RStep.
   Proof.
     unfold r_named. destruct (r_params (c_params c) s) as [[[s1 ps] loc]| |] eqn:E; simpl; try exact I.
     apply r_params_frames in E.
-    unfold with_stack, with_locals, with_this, with_context, with_scope, with_registered, bracket. simpl.
+    unfold with_stack, with_env, with_this, with_context, with_scope, with_registered, bracket.
+    set (S1 := bind_params loc (enter_def (decl_of c) (c_env c) (set_stk s1 (rev ps)))).
+    assert (F1 : frames s1 S1).
+    { unfold S1. eapply frames_trans; [|apply frames_bind_params]. eapply frames_trans; [|apply frames_enter_def]. apply frames_set_stk. }
+    cbn [xbind].
+    match goal with |- context [of_name ?o] => destruct o as [f|] end; simpl; try exact I.
     match goal with |- context [rec (c_body c) ?S0] => pose proof (Hrec (c_body c) S0) as K; destruct (rec (c_body c) S0) as [[g s2]| |] end;
       simpl; try exact I.
     destruct g; simpl; try exact I.
-    destruct K as (K1 & K2 & K3 & K4). destruct E as (E1 & E2 & E3 & E4). simpl in *.
-    repeat split; simpl; try congruence; try exact E4.
+    destruct K as (K1 & K2 & K3 & K4). destruct F1 as (G1 & G2 & G3 & G4). destruct E as (E1 & E2 & E3 & E4). simpl in *.
+    repeat split; simpl; try congruence.
+    eapply scopes_like_trans; [exact E4|exact G4].
   Qed.
 
   Lemma keeps2_r_app c args s : keeps2 (r_app rec c args s) s.
@@ -392,7 +439,8 @@ Section RStep.
     - destruct (tv t) as [|k [|? ?]]; try exact I.
       apply keeps_elem_sem; [apply keeps2_r_app|apply keeps_r_callstk].
     - destruct (name_ok (tv t)); [|exact I]. destruct (lookup_var (tv t) s); simpl; fr.
-    - destruct (name_ok (tv t)); [|exact I]. destruct (pop1 s) as [s1 v] eqn:E. apply pop1_frames in E. simpl. exact E.
+    - destruct (name_ok (tv t)); [|exact I]. destruct (pop1 s) as [s1 v] eqn:E. apply pop1_frames in E. simpl.
+      eapply frames_trans; [exact E|apply frames_assign_var].
   Qed.
 
   Lemma keeps2_r_break p s : keeps2 (r_break p s) s.
@@ -448,19 +496,23 @@ Section RStep.
     match goal with |- context [with_context x (rec body) ?S0] =>
       pose proof (keeps2_with_context x (rec body) S0 (Hrec body)) as K;
       destruct (with_context x (rec body) S0) as [[g s2]| |] end; simpl; try exact I.
-    assert (F : frames s s2) by (destruct var; simpl in K; fr).
+    assert (F : frames s s2).
+    { destruct var; simpl in K; [eapply frames_trans; [apply frames_assign_var|exact K]|exact K]. }
     destruct g; simpl; try exact F; (eapply keeps2_weaken; [exact F|apply IH]).
   Qed.
 
   Lemma keeps2_r_items its : forall s, keeps2 (r_items rec its s) s.
   Proof.
     induction its as [|x r IH]; intro s; simpl; [apply frames_refl|].
-    unfold with_stack, with_locals, bracket. simpl.
+    unfold with_stack, with_env, bracket. simpl.
     match goal with |- context [rec x ?S0] => pose proof (Hrec x S0) as K; destruct (rec x S0) as [[g s']| |] end; simpl; try exact I.
     destruct g; simpl; try exact I.
     match goal with |- context [r_items rec r ?S1] => pose proof (IH S1) as K2; destruct (r_items rec r S1) as [[vs s2]| |] end;
       simpl; try exact I.
-    simpl in *. fr.
+    simpl in K2.
+    eapply frames_trans; [|exact K2].
+    eapply frames_trans; [apply (frames_enter_def (assigned_list x) (cur s) (set_stk s (stk s)))|].
+    eapply frames_trans; [exact K|]. apply frames_same; reflexivity.
   Qed.
 
   Lemma keeps2_r_step x s : keeps2 (r_step cf rec wl x s) s.
@@ -482,7 +534,7 @@ Section RStep.
       eapply keeps2_weaken; [|apply Hwl]. simpl in K. fr.
     - destruct (name_ok _); [|exact I].
       destruct (lookup_var _ s) as [[z|t0|l|c]|]; try exact I. apply keeps2_norm. apply keeps_r_call_on_stack.
-    - destruct (name_ok _); [|exact I]. destruct (params_of params); simpl; fr.
+    - destruct (name_ok _); [|exact I]. destruct (params_of params); simpl; try exact I. apply frames_assign_var.
     - simpl. fr.
     - destruct op; apply keeps2_norm;
         (eapply keeps_weaken; [|apply keeps_elem_sem; [apply keeps2_r_app|apply keeps_r_callstk]]); fr.
